@@ -1,5 +1,6 @@
 #!/bin/bash
-# Run every check's quick tier at several seeds (and a random hash seed) on the unchanged tree; report anything that is not exit 0.
+# Run every check's quick tier at several seeds on the unchanged tree; report anything that is not exit 0 or that prints
+# a VIOLATION / HARNESS line (the whole output is searched, not only the first line).
 cd "$(dirname "$0")/.."
 seeds="${1:-2 3}"
 for seed in $seeds; do
@@ -7,7 +8,8 @@ for seed in $seeds; do
     start=$(date +%s)
     out=$(VERIF_SEED=$seed ./vcheck $id --tier quick --no-evidence 2>&1); code=$?
     end=$(date +%s)
-    echo "seed=$seed $id exit=$code $((end-start))s $(echo "$out" | grep -c '^VIOLATION') violations"
-    if [ $code -ne 0 ]; then echo "$out" | grep -v '^$' | tail -15; fi
+    bad=$(echo "$out" | grep -c -E '^(VIOLATION|HARNESS|KNOWN-FINDING)|Traceback')
+    echo "seed=$seed $id exit=$code $((end-start))s alarms=$bad"
+    if [ $code -ne 0 ] || [ $bad -ne 0 ]; then echo "$out" | grep -v '^$' | tail -15; fi
   done
 done
